@@ -43,8 +43,8 @@ constexpr bool can_move_assign = std::is_move_assignable_v<Index> && std::is_def
 
 /// C19 for a static class: derive Y from X, then destroy X / churn / query Y in the order given by the plan.
 /// `answers(idx)` returns a digest vector of all query answers.
-template<typename Index, typename AnswerFn>
-void lifetime_history(Index *&X, const std::string &steps, AnswerFn answers, Rng &r, size_t footprint, Outcome &out, Stats &st, Trace &tr) {
+template<typename Index, typename AnswerFn, typename OtherFn>
+void lifetime_history(Index *&X, const std::string &steps, AnswerFn answers, OtherFn make_other, Rng &r, size_t footprint, Outcome &out, Stats &st, Trace &tr) {
     auto before = answers(*X);
     for (auto v : before) tr.add(v);
     Index *Y = nullptr;
@@ -55,6 +55,11 @@ void lifetime_history(Index *&X, const std::string &steps, AnswerFn answers, Rng
             if constexpr (can_copy_construct<Index>) { if (!Y && x_alive) { Y = new Index(*X); st.inc("steps.copy-construct"); } }
         } else if (s == "copy-assign") {
             if constexpr (can_copy_assign<Index>) { if (!Y && x_alive) { Y = new Index(); *Y = *X; st.inc("steps.copy-assign"); } }
+        } else if (s == "copy-assign-over") {
+            // assignment onto an already built object of the same shape: containers then assign element-wise in place
+            if constexpr (can_copy_assign<Index>) { if (!Y && x_alive) { Y = make_other(); *Y = *X; st.inc("steps.copy-assign-over"); } }
+        } else if (s == "move-assign-over") {
+            if constexpr (can_move_assign<Index>) { if (!Y && x_alive) { Y = make_other(); *Y = std::move(*X); x_moved = true; st.inc("steps.move-assign-over"); } }
         } else if (s == "move-construct") {
             if constexpr (can_move_construct<Index>) { if (!Y && x_alive) { Y = new Index(std::move(*X)); x_moved = true; st.inc("steps.move-construct"); } }
         } else if (s == "move-assign") {
@@ -88,8 +93,8 @@ void lifetime_history(Index *&X, const std::string &steps, AnswerFn answers, Rng
 }
 
 inline std::string draw_lifetime_steps(Rng &r) {
-    static const char *derive[] = {"copy-construct", "copy-assign", "move-construct", "move-assign"};
-    std::string s = derive[r.below(4)];
+    static const char *derive[] = {"copy-construct", "copy-assign", "move-construct", "move-assign", "copy-assign-over", "move-assign-over", "copy-assign-over"};
+    std::string s = derive[r.below(7)];
     // seeded order of: destroy source, churn, query copy (possibly several times)
     std::vector<std::string> rest = {"destroy-source", "churn", "query-copy"};
     if (r.coin()) rest.push_back("query-copy");
@@ -198,7 +203,8 @@ struct StaticClass {
                 return v;
             };
             sim::set_poison(true);
-            lifetime_history(idx, p.get("steps"), answers, r, Tr::footprint(data.size()), out, st, tr);
+            auto make_other = [&]() { return Tr::build(data); };
+            lifetime_history(idx, p.get("steps"), answers, make_other, r, Tr::footprint(data.size()), out, st, tr);
             sim::set_poison(false);
             st.inc("fault.poison_runs", sim::g_poisoned_blocks); sim::g_poisoned_blocks = 0;
             st.mark("nontrivial", sim::mix(tr.h, sim::hash_str(p.get("steps").c_str())));
